@@ -66,6 +66,7 @@ class Trace:
         self.calls = []         # every call node seen (after inlining decisions): (q, loc, inlined?)
         self.coords_read = set()
         self.switch_labels = []  # list of label tuples, one per switch executed
+        self.obj_calls = []      # library method calls on member objects: (path, method, arg terms, loc)
 
 
 CONST_GLOBALS = {
@@ -86,12 +87,13 @@ def is_num(t, v=None):
 
 
 class Evaluator:
-    def __init__(self, prog, dyn_class=None, scalar='double', inline=True, opaque=()):
+    def __init__(self, prog, dyn_class=None, scalar='double', inline=True, opaque=(), regmap=None):
         self.prog = prog
         self.dyn_class = dyn_class
         self.scalar = scalar
         self.inline = inline
         self.opaque = set(opaque)      # function names never inlined
+        self.regmap = regmap            # registered parameter name -> member path (set_var modelled as a store)
         self.trace = Trace()
         self.memo = {}
 
@@ -307,11 +309,15 @@ class Evaluator:
             if bt.get('k') == 'member':
                 path = self.mpath(bt, P, fr)
                 if path:
-                    P.mem[path] = ('unk', 'element store')
+                    idx = t['idx'] if k == 'index' else t['args'][1]
+                    old = P.mem.get(path, ('sym', path))
+                    P.mem[path] = ('call', 'elemstore', (old, self.E(idx, P, fr), v))
                     self.trace.writes.setdefault(path, []).append(loc)
                     return
             if bt.get('k') == 'local':
-                P.locals[(fr['id'], bt['id'])] = ('unk', 'element store')
+                idx = t['idx'] if k == 'index' else t['args'][1]
+                old = P.locals.get((fr['id'], bt['id']), ('unk', 'uninitialised container'))
+                P.locals[(fr['id'], bt['id'])] = ('call', 'elemstore', (old, self.E(idx, P, fr), v))
                 return
             self.trace.writes.setdefault('*unknown', []).append(loc)
             return
@@ -353,6 +359,16 @@ class Evaluator:
                 return ('sym', 'const:epsilon')
             if n == 'operator<<':
                 return ('unk', 'ostream')
+            if obj is not None:
+                ob = strip(obj, casts=True)
+                if ob.get('k') == 'member':
+                    path = self.mpath(ob, P, fr)
+                    if path is not None:
+                        self.trace.obj_calls.append((path, n, args, loc))
+                        if n in ('resize', 'push_back', 'assign', 'clear', 'operator=', 'insert', 'erase', 'pop_back', 'swap'):
+                            P.mem[path] = ('call', 'container:' + n, (P.mem.get(path, ('sym', '@old:' + path)),) + tuple(args))
+                            self.trace.writes.setdefault(path, []).append(loc)
+                        return ('unk', 'call ' + q)
             self.trace.unknown_calls.append((q, loc))
             if obj is not None:
                 self.E(obj, P, fr)
@@ -361,7 +377,16 @@ class Evaluator:
         self.trace.calls.append((q, loc))
         if n in ('set_var', 'set_vec') and 'manufactured_solution<' in e.get('rec', ''):
             from .ast import str_value
-            self.trace.setvar_calls.append((str_value(args_e[0]), loc, n, args_e[1]))
+            nm = str_value(args_e[0])
+            val = self.E(args_e[1], P, fr)
+            self.trace.setvar_calls.append((nm, loc, n, val))
+            if self.regmap is not None:
+                path = self.regmap.get(nm)
+                if path is not None:
+                    P.mem[path] = val
+                    self.trace.writes.setdefault(path, []).append(loc)
+                    return num(0)
+                return num(1)
         target = self.resolve(e, P, fr, obj)
         if target is None or not self.inline or n in self.opaque or fr['depth'] >= MAX_DEPTH:
             args = tuple(self.E(a, P, fr) for a in args_e)
@@ -620,11 +645,43 @@ class Evaluator:
             outs.append(Q)
         return outs
 
+    def scan_assigned(self, node, P, fr):
+        """locals (ids) and member paths syntactically assigned inside a loop body"""
+        from .ir import walk
+        loc, mem = {}, set()
+        for n in walk(node):
+            tgt = None
+            if n.get('k') == 'bin' and n['op'] in ('=', '+=', '-=', '*=', '/='):
+                tgt = n['a']
+            elif n.get('k') == 'un' and n['op'] in ('++', '--'):
+                tgt = n['e']
+            if tgt is None:
+                continue
+            t = strip(tgt, casts=True)
+            while t.get('k') == 'index' or (t.get('k') == 'call' and t.get('n') == 'operator[]'):
+                t = strip(t['base'] if t['k'] == 'index' else t['args'][0], casts=True)
+            if t.get('k') == 'local':
+                loc[t['id']] = t['n']
+            elif t.get('k') == 'member':
+                pth = self.mpath(t, P, fr)
+                if pth:
+                    mem.add(pth)
+        return loc, mem
+
     def exec_loop(self, s, P, fr):
-        """one abstract iteration; everything assigned inside becomes unknown afterwards"""
+        """one abstract iteration.  Variables assigned in the body carry the marker symbol
+        '@loop:<name>' on entry to the body and become the opaque term loop(<values after one
+        iteration>) afterwards: dependencies are preserved, the value is not."""
         if s['k'] == 'for' and s.get('init') is not None:
             res = self.exec_stmt(s['init'], P, fr)
             P = res[0]
+        loc, mem = self.scan_assigned({'b': s.get('body'), 'i': s.get('inc')}, P, fr)
+        for lid, name in loc.items():
+            if (fr['id'], lid) in P.locals:
+                P.locals[(fr['id'], lid)] = ('call', 'loopvar', (P.locals[(fr['id'], lid)], ('sym', '@loop:' + name)))
+        for pth in mem:
+            if pth in P.mem:
+                P.mem[pth] = ('call', 'loopvar', (P.mem[pth], ('sym', '@loop:' + pth)))
         before_l = dict(P.locals)
         before_m = dict(P.mem)
         if s.get('c') is not None and s['k'] != 'do':
@@ -634,21 +691,21 @@ class Evaluator:
         for p in body_paths:
             if s['k'] == 'for' and s.get('inc') is not None and p.kind in ('fall', 'cont'):
                 self.E(s['inc'], p, fr)
-        # merge: anything changed on any body path is unknown after the loop
+        changed_l, changed_m = {}, {}
         for p in body_paths:
             for kx, v in p.locals.items():
-                if before_l.get(kx) != v:
-                    P.locals[kx] = ('unk', 'loop-carried')
+                if before_l.get(kx) != v and kx in before_l:
+                    changed_l.setdefault(kx, []).append(v)
             for kx, v in p.mem.items():
-                if before_m.get(kx) != v:
-                    if kx in before_m:
-                        P.mem[kx] = ('unk', 'loop-carried')
-                    else:
-                        # written inside the loop only: not definitely written afterwards
-                        pass
+                if before_m.get(kx) != v and kx in before_m:
+                    changed_m.setdefault(kx, []).append(v)
+        for kx, vs in changed_l.items():
+            P.locals[kx] = ('call', 'loop', tuple(vs))
+        for kx, vs in changed_m.items():
+            P.mem[kx] = ('call', 'loop', tuple(vs))
         outs = [P]
         for r in rets:
-            r.conds.append(('unk', 'inside loop'))
+            r.conds.append(('sym', '@loop:cond'))
             outs.append(r)
         return outs
 
